@@ -46,9 +46,9 @@ def tree_case(rng, tier, algo=None):
         n = min(n, 300 if tier == "quick" else 600)
     c = gen.algo_case(rng, algo, tier, n=n, T=n, fams=FAMS, dim=int(rng.integers(1, 4)))
     c["params"] = tree_params(rng, algo)
-    if algo == "VHCT" and rng.random() < 0.2:
+    if algo == "VHCT" and rng.random() < 0.3:
         # rewards with a large common offset: where a variance computed from raw moments cancels catastrophically
-        c["reward"]["family"] = str(rng.choice(["large_off", "large"]))
+        c["reward"]["family"] = str(rng.choice(["large_off", "large", "huge_off", "huge_off"]))
     if algo == "T_HOO" and rng.random() < 0.25:
         # coarse discrete rewards with a wide spread: exact ties between sibling B-values
         c["reward"]["family"] = str(rng.choice(["intnormal", "quant5", "tied", "twoval", "nonpos3"]))
